@@ -1014,7 +1014,7 @@ Qed.
 Definition jordan_ok (j : jordan) : Prop :=
   all_lines j = true /\ closed_chain j = true /\ wf_cyc j /\ j <> [].
 Definition comp_ok (c : comp) : Prop :=
-  match c with CS j => jordan_ok j | CC _ => True end.
+  match c with CS j => jordan_ok j | CC js => forall j, In j js -> jordan_ok j end.
 Definition shape_ok (s : shape) : Prop :=
   match s with
   | SEmpty | SWhole => True
@@ -1022,11 +1022,35 @@ Definition shape_ok (s : shape) : Prop :=
   | SD cs => forall c, In c cs -> comp_ok c
   end.
 
+Lemma simple_eq_total a b : jordan_ok a -> jordan_ok b -> exists r, simple_eq a b = Ok r.
+Proof.
+  intros (La & Ca & Wa & Na) (Lb & Cb & Wb & Nb).
+  unfold simple_eq. destruct (negb _); [eauto|]. apply jordan_eq_total; auto.
+Qed.
+Lemma find_simple_total s : jordan_ok s -> forall l k,
+  (forall o, In o l -> jordan_ok o) -> exists r, find_simple s k l = Ok r.
+Proof.
+  intros Hs. induction l as [|o t IH]; intros k Hl; [exists None; reflexivity|].
+  cbn [find_simple].
+  destruct (simple_eq_total o s (Hl o (or_introl eq_refl)) Hs) as [e ->]. cbn [bind].
+  destruct e; [eauto|]. apply IH. intros o' Ho'. apply Hl. right. exact Ho'.
+Qed.
+Lemma match_simples_total : forall ss os,
+  (forall j, In j ss -> jordan_ok j) -> (forall j, In j os -> jordan_ok j) ->
+  exists r, match_simples ss os = Ok r.
+Proof.
+  induction ss as [|s t IH]; intros os Hs Ho; cbn [match_simples]; [eauto|].
+  destruct (find_simple_total s (Hs s (or_introl eq_refl)) os 0%nat Ho) as [r ->]. cbn [bind].
+  destruct r as [k|]; [|eauto]. apply IH.
+  - intros j Hj. apply Hs. right. exact Hj.
+  - intros j Hj. apply Ho. eapply SplitClean.remove_nth_In. exact Hj.
+Qed.
 Lemma comp_eq_total a b : comp_ok a -> comp_ok b -> exists r, comp_eq a b = Ok r.
 Proof.
   destruct a as [ja|ja], b as [jb|jb]; cbn [comp_eq comp_ok]; intros Ha Hb; eauto.
-  destruct Ha as (La & Ca & Wa & Na), Hb as (Lb & Cb & Wb & Nb).
-  unfold simple_eq. destruct (negb _); [eauto|]. apply jordan_eq_total; auto.
+  - apply simple_eq_total; assumption.
+  - destruct (negb (Qle_bool _ _)); [eauto|]. destruct (negb (Nat.eqb _ _)); [eauto|].
+    apply match_simples_total; assumption.
 Qed.
 
 Definition find_loop (s0 : comp) : nat -> list comp -> res (option nat) :=
